@@ -221,7 +221,8 @@ func (s *handler) handleReader(ctx context.Context, r io.Reader, w io.Writer, rp
 				s.handle(ctx, req, bwf, rpcError, func(bool) {}, nil)
 			}
 
-			if respBuf.Len() == 0 {
+			// Notifications are never answered, not even with an error.
+			if respBuf.Len() == 0 || (err == nil && req.ID == nil) {
 				continue
 			}
 			if wrote {
